@@ -167,7 +167,7 @@ theorem scaledValidate_ok {scale min max : F} {v : PVal F} {r : F} (h : scaledVa
     ∃ result lo hi x, scaledCall scale v = .ok result ∧ scaledCall scale (.float min) = .ok lo ∧
       scaledCall scale (.float max) = .ok hi ∧ toFloat? v = some x ∧
       ((le lo result = true ∧ le result hi = true ∧ r = result) ∨
-       ((le lo result && le result hi) = false ∧ lt (sub min scale) x = true ∧ lt x (add max scale) = true ∧
+       ((le lo result && le result hi) = false ∧ lt (sub lo scale) x = true ∧ lt x (add hi scale) = true ∧
           r = median3 lo result hi)) := by
   unfold scaledValidate at h
   cases hres : scaledCall scale v with
